@@ -530,15 +530,17 @@ class HTTP2Connection(ConnectionInterface):
                     elif isinstance(event, h2.events.ConnectionTerminated):
                         self._connection_terminated = event
 
+                # The h2 state has applied the new settings already. Our own
+                # bookkeeping follows at once - it does not wait for anything -
+                # and only then is the trace callback, which may be interrupted,
+                # told about it.
                 for event in settings_changes:
-                    # The h2 state has applied the new settings already. Our own
-                    # bookkeeping has to follow, whatever happens to this request.
-                    with ShieldCancellation():
-                        with Trace(
-                            "receive_remote_settings", logger, request
-                        ) as trace:
-                            self._receive_remote_settings_change(event)
-                            trace.return_value = event
+                    self._receive_remote_settings_change(event)
+                for event in settings_changes:
+                    with Trace(
+                        "receive_remote_settings", logger, request
+                    ) as trace:
+                        trace.return_value = event
 
         self._write_outgoing_data(request)
 
